@@ -273,6 +273,22 @@ def judge_history(si, cfg, as_tuple, hist):
     f = PyKdebugParser()
     configure(f, cfg, as_tuple)
     want = (cfg[0], cfg[1], tuple(cfg[2]) if as_tuple else list(cfg[2]), tuple(cfg[3]) if as_tuple else list(cfg[3]))
+    # the caller's settings are the caller's also WHILE a request is only partly read, and after it is abandoned
+    for kind in set(hist):
+        g = getattr(f, kind)(io.BytesIO(blob), tcodes())
+        try:
+            next(iter(g), None)
+        except Exception:
+            pass
+        mid = (f.filter_tid, f.filter_process, f.filter_class, f.filter_subclass)
+        if hasattr(g, 'close'):
+            g.close()
+        del g
+        now = (f.filter_tid, f.filter_process, f.filter_class, f.filter_subclass)
+        if mid != want or now != want:
+            return ('caller-filter-settings-changed:while-a-request-is-partly-read', {'request': kind, 'during': repr(mid), 'after_abandoning': repr(now), 'as_set': repr(want)})
+    f = PyKdebugParser()
+    configure(f, cfg, as_tuple)
     for step, kind in enumerate(hist):
         fresh = PyKdebugParser()
         configure(fresh, cfg, as_tuple)
